@@ -136,7 +136,7 @@ pub fn pos_tails() -> Vec<Vec<PosItem>> {
         }
     }
     // non_strict variadic followed by strict items: unambiguous thanks to the separator
-    for a in [PosKind::Opt, PosKind::Many, PosKind::Some] {
+    for a in [PosKind::Opt, PosKind::Many, PosKind::Some, PosKind::Fallback] {
         for b in kinds {
             out.push(vec![PosItem { kind: a, strict: Strict::NonStrict }, PosItem { kind: b, strict: Strict::Strict }]);
         }
@@ -302,7 +302,7 @@ impl Check for C09 {
         }
     }
     fn rule(&self) -> String {
-        "definitions = every unambiguous positional suffix of 0..3 items (required* then required|optional|many|some; plus non_strict variadic followed by strict items) with every strictness assignment {unrestricted, strict, non_strict}, beside nothing / a switch / an optional argument / below a sub-command / positionals with help attached after the strictness annotation, hidden non-strict positionals, an optional literal +ext declared anywhere() (taken from either side of `--` before the positionals look); every vector of the token tree over {v, w, -, --, --help, -z, --bpaf-complete-rev=8 (the parser's own reserved option: judged right of `--` only, where it is data), declared names, --name, --name=--, command name}; judged by the reference scanner: first `--` splits, is never delivered, right side is verbatim positional data (so `-- --help` is data), left words go to unrestricted/non_strict positionals and right words to unrestricted/strict ones in order; `--name --` fails, `--name=--` delivers `--`; plus, in completion mode (revision 0), every vector with the separator left of the word being typed: no option or command name among the candidates; state = (definition, vector)".into()
+        "definitions = every unambiguous positional suffix of 0..3 items (required* then required|optional|many|some; plus a non_strict optional / defaulted (fallback) / variadic positional followed by strict items) with every strictness assignment {unrestricted, strict, non_strict}, beside nothing / a switch / an optional argument / below a sub-command / positionals with help attached after the strictness annotation, hidden non-strict positionals, an optional literal +ext declared anywhere() (taken from either side of `--` before the positionals look); every vector of the token tree over {v, w, -, --, --help, -z, --bpaf-complete-rev=8 (the parser's own reserved option: judged right of `--` only, where it is data), declared names, --name, --name=--, command name}; judged by the reference scanner: first `--` splits, is never delivered, right side is verbatim positional data (so `-- --help` is data), left words go to unrestricted/non_strict positionals and right words to unrestricted/strict ones in order; `--name --` fails, `--name=--` delivers `--`; plus, in completion mode (revision 0), every vector with the separator left of the word being typed: no option or command name among the candidates; state = (definition, vector)".into()
     }
     fn bounds(&self, tier: Tier) -> Value {
         json!({"positionals": "0..3", "vector_length": tier.pick("5 (4 with three positionals; +1 for positional-only levels)", "6 (7 for positional-only levels)")})
